@@ -27,6 +27,8 @@ def c_step(st):
         x = "KShrink %s" % coq_N(REP[st["r"]])
     elif k == "expand":
         x = "KExpand %s" % coq_N(REP[st["r"]])
+    elif k == "fallback":
+        x = "FFallback %s" % coq_N(REP[st["r"]])
     else:
         raise ValueError(k)
     if k == "elect" and st["r"] != "a":
@@ -36,6 +38,22 @@ def c_step(st):
     return "(%s, %s)" % (x, c_obs(st))
 
 
+def has_fallback(c):
+    return any(s["op"] == "fallback" for s in c["steps"])
+
+
+def f_case(c):
+    # histories with the truncation fallback: every other step wrapped as a step of Repl.Cluster
+    steps = [s for s in c["steps"] if s["op"] != "start"]
+    out = []
+    for s in steps:
+        t = c_step(s)
+        if s["op"] != "fallback":
+            t = "(FBase (" + t[1:].replace(", mkKObs", "), mkKObs", 1)
+        out.append(t)
+    return "mkFCase %d%%nat %s [\n   %s]" % (c["minisr"], coq_N(c["steps"][0]["epoch"]), ";\n   ".join(out))
+
+
 def c_case(c):
     steps = [s for s in c["steps"] if s["op"] != "start"]
     return "mkKCase %d%%nat %s [\n   %s]" % (c["minisr"], coq_N(c["steps"][0]["epoch"]), ";\n   ".join(c_step(s) for s in steps))
@@ -43,11 +61,13 @@ def c_case(c):
 
 def run(pid, tier, seed, replay):
     ctx = Ctx(pid, tier, seed)
-    ctx.trusted.append("modelled, not verified: one replica (a) is the real server, the other two are played by the driver following the model's rules (their leader-epoch-offset answers and replication responses are built from real commit logs); every step is atomic and a follower reconciles against the current leader; the HW-truncation fallback taken when the leader cannot be reached, a leader that restarts as leader without reconciling, Raft, NATS and timing (lag-based ISR changes, failure detection) are outside the model")
+    ctx.trusted.append("modelled, not verified: one replica (a) is the real server, the other two are played by the driver following the model's rules (their leader-epoch-offset answers and replication responses are built from real commit logs); every step is atomic and a follower reconciles against the current leader; the HW-truncation fallback taken when the leader cannot be reached is modelled apart (Repl/Fallback.v) and replayed by one corpus history per configuration (known finding), a leader that restarts as leader without reconciling, Raft, NATS and timing (lag-based ISR changes, failure detection) are outside the model")
     ctx.coq_cone("Properties/C02.v")
     env = {"VERIF_N": 14 if tier == "quick" else 150}
     lines = ctx.go_driver("server", ["server/srv_test.go", "server/partdrv_test.go", "server/c02_test.go"], "^TestVerifC02$", env=env, timeout=6000)
-    cases = [l for l in lines if l.get("k") == "repl"]
+    allcases = [l for l in lines if l.get("k") == "repl"]
+    cases = [c for c in allcases if not has_fallback(c)]
+    fcases = [c for c in allcases if has_fallback(c)]
     dist = {}
     for l in lines:
         if l.get("k") == "stat":
@@ -64,6 +84,22 @@ def run(pid, tier, seed, replay):
         txt += "Definition CS : list kcase := [\n %s].\n" % ";\n ".join([c_case(c) for c in part] + [sentinel])
         txt += "Definition M := Eval vm_compute in kcases_mismatches CS 0.\nPrint M.\n"
         jobs.append((("cases_c02_%d" % len(jobs), txt), part))
+    if fcases:
+        # the histories that take the truncation fallback run against Repl.Fallback: they must follow that model
+        # step by step, and the model must agree on whether a committed message is missing from the last leader
+        txt = "From LB Require Import Base.Prelude Repl.Cluster Repl.Fallback.\nOpen Scope Z_scope.\n"
+        txt += "Definition FS : list fcase := [\n %s].\n" % ";\n ".join(f_case(c) for c in fcases)
+        txt += "Definition R := Eval vm_compute in map fcase_result FS.\nPrint R.\n"
+        fout = ctx.coq_eval_many([("cases_c02_fallback", txt)], jobs=1)[0]
+        got = re.findall(r"\((None|Some \d+)(?:%nat)?\s*,\s*(true|false)\)", fout or "")
+        if len(got) != len(fcases):
+            ctx.tie_problems.append({"what": "could not parse the fallback model's answer", "detail": (fout or "")[-500:]})
+        for (where, lost), c in zip(got, fcases):
+            seen = any(l.get("k") == "violation" and l["case"]["id"] == c["id"] and l["sig"].startswith("committed-message-lost") for l in lines)
+            if where != "None":
+                ctx.tie_problems.append({"what": "correspondence Repl.Fallback.check_fcluster: history %s (with the truncation fallback) differs from the model at step %s" % (c["id"], where), "first": [{"ops": [{k: v for k, v in s.items() if k in ("op", "r", "n", "v", "e")} for s in c["steps"]]}]})
+            elif (lost == "true") != seen:
+                ctx.tie_problems.append({"what": "history %s with the truncation fallback: the model says committed-lost=%s, the driver's oracle saw it=%s" % (c["id"], lost, seen)})
     outs = ctx.coq_eval_many([j[0] for j in jobs], jobs=12)
     for out, (_, part) in zip(outs, jobs):
         if out is None:
@@ -84,13 +120,13 @@ def run(pid, tier, seed, replay):
                 break
     canon = set()
     nsteps = 0
-    for c in cases:
+    for c in allcases:
         kinds = [s["op"] for s in c["steps"]]
         nsteps += len(kinds)
         if kinds.count("elect") >= 1 and "reconcile" in kinds and "fetch" in kinds:
             canon.add(json.dumps([[s["op"], s.get("r"), s.get("n")] for s in c["steps"]]))
     return ctx.finish(
-        coverage={"input_distribution": dist, "histories": len(cases), "steps": nsteps, "case_shards": len(jobs)},
+        coverage={"input_distribution": dist, "histories": len(allcases), "histories_with_truncation_fallback": len(fcases), "steps": nsteps, "case_shards": len(jobs)},
         samples=[{"id": c["id"], "steps": [{k: v for k, v in s.items() if k in ("op", "r", "n", "v", "e", "leader", "hws")} for s in c["steps"][:8]]} for c in cases[:1]],
         rule="per history a partition with replicas a (the real in-process server), b and c (played by the driver): 12-33 steps of publish at the leader, follower fetch of 1-4 entries, election of a reconciled ISR member (the real server both loses and regains leadership; as a follower it reconciles and replicates from a phantom leader through the real becomeFollower / truncateUncommitted / replication loop), reconciliation of a phantom follower against the real leader's leader-epoch-offset answer, ISR shrink and expand through Raft; minimum ISR 1 and 2; after every step all three logs (epoch, message), HWs and the leader's offset table are compared with the model, and a direct oracle checks that committed messages stay on every leader and replicas agree below their HWs; non-trivial = an election, a reconciliation and a fetch; distinct by step sequence",
-        evaluations=len(cases), distinct_nontrivial=len(canon), traces=len(cases))
+        evaluations=len(allcases), distinct_nontrivial=len(canon), traces=len(allcases))
